@@ -111,6 +111,17 @@ CLAIMED = {
             'successive generations of restore are generated deliberately. Threaded pipelines are compared as multisets.',
             'exact aggregates; open finding F-C10-threaded-restore-skips-prefetched (num_threads > 0) is steered around and reported.',
             '§3 C10'),
+    'C17': ('exploration',
+            'Hypothesis-generated expression ASTs and make/pickle/clear/deref/flood histories against an eager interpreter with explicit LRU cache models',
+            'Expression trees (depth <= 5) over counting callables - nested traced calls with lazy positional and keyword arguments, '
+            'traced class -> instance -> attribute / item / method / call chains, cache_result_ and lazy_result_ flags, raising '
+            'callables - are materialised directly and after a pickle round trip inside histories that also clear the caches, '
+            'dereference lazy-result handles and flood the caches past their bounds (128 / 1024). An eager interpreter over the same '
+            'AST with explicit OrderedDict LRU models predicts every value, the identity of cached results, the exact number of '
+            'function invocations per step, cache_info() and when LazyObjectMissingError must be raised. LruCache itself is driven '
+            'as a state machine against the same model for maxsize 1..5.',
+            'callables are importable (vlib/targets.py); cache keys modelled by structural equality of the expression.',
+            '§3 C17'),
 }
 
 PENDING_REASON = 'check not built yet in this session (work in progress; see DESIGN.md §9 build order) - not claimed until its check exists'
